@@ -14,7 +14,7 @@ func init() {
 		Explanation: "Decided: every byte of the meta structure that precedes the checksum is covered by it on every supported architecture (no padding hole, checksum last, 64 bytes); Validate tests magic, version and checksum and returns nil on exactly one of the 8 combinations; " +
 			"no meta is used before it was validated (page-size probing, Open's order); the two-page decision logic is the stated truth table (db.mmap fails iff both metas are invalid, db.meta() picks the valid meta with the larger txid, getPageSize falls back to the second meta iff the first did not validate); " +
 			"every rejecting exit of Open closes the descriptor and returns a non-nil error. " +
-			"NOT decided: which state is presented after fall-back (follows from C01/C06 dynamically), page-size probing arithmetic; that FNV-1a changes under any single-byte substitution is arithmetic and stated as an assumption.",
+			"NOT decided: which state is presented after fall-back (follows from C01/C06 dynamically), page-size probing arithmetic; that FNV-1a changes under any single-byte substitution is arithmetic and stated as an assumption. Round 3: the probing loop for the second meta page reads every power-of-two offset inside the file, whatever the file size is a multiple of (executed for four file sizes).",
 		Assumptions: []string{"FNV-1a-64: for a fixed input byte each step is a bijection of the state, so any single-byte substitution in the hashed prefix changes the sum (not checked)"},
 		Run: func(c *Ctx) {
 			c11R1(c, "C11.R1")
